@@ -158,7 +158,10 @@ def record_one(rnd, rid, p_fail=0.0):
     text = render(f, rnd)
     stats = analyze_transactions(txns)
     cfg = parse_sections(text)
-    res = classify_by_sections(stats['by_merchant'], cfg, stats['num_months'])
+    try:
+        res = classify_by_sections(stats['by_merchant'], cfg, stats['num_months'])
+    except (TypeError, KeyError, AttributeError, IndexError, ZeroDivisionError, ValueError, AssertionError):
+        res = {}          # classification is total (C08 / C10): an exception escaping from it leaves every view without members
     names = [m['name'] for m in ms]
     obs = []
     for v in f['views']:
